@@ -117,7 +117,12 @@ func (svr *Server) handshakeDataChannel(wsc websocket.Conn) {
 	buf.Reset()
 	defer buffers.Put(buf)
 	req.ResponseTo(buf, code, text, map[string]string{}, "")
-	_, err = tc.Write(buf.Bytes())
+	if session != nil {
+		// 应答与加入会话一步完成：客户端读到应答时数据通道必须已经在会话上
+		err = session.joinDataChannel(wsc, buf.Bytes())
+	} else {
+		_, err = tc.Write(buf.Bytes())
+	}
 	if err != nil {
 		svr.logger.Error(err.Error())
 		tc.Close()
@@ -127,10 +132,5 @@ func (svr *Server) handshakeDataChannel(wsc websocket.Conn) {
 	svr.logger.Debugf("wsp ===>>> \r\n%s", buf.String())
 	if session == nil {
 		tc.Close()
-		return
 	}
-
-	// 添加到session
-	verifPoint("join.answered", wsc)
-	session.setDataChannel(wsc)
 }
